@@ -340,7 +340,10 @@ bool TimeZoneInfo::ExtendTransitions() {
   // (well, at least the first transition in the 401st year) so that the
   // end of the 400th year is mapped back to an extended year. And first
   // we may also need two additional transitions for the current year.
-  transitions_.reserve(transitions_.size() + 2 + 401 * 2);
+  // We also generate the transitions of one more year (without counting
+  // it in last_year_) because a rule time such as "0/-1" places a year's
+  // first transition in the closing hours of the previous civil year.
+  transitions_.reserve(transitions_.size() + 2 + 402 * 2);
   extended_ = true;
 
   const Transition& last(transitions_.back());
@@ -354,7 +357,7 @@ bool TimeZoneInfo::ExtendTransitions() {
 
   Transition dst = {0, dst_ti, civil_second(), civil_second()};
   Transition std = {0, std_ti, civil_second(), civil_second()};
-  for (const year_t limit = last_year_ + 401;; ++last_year_) {
+  for (const year_t limit = last_year_ + 402;; ++last_year_) {
     auto dst_trans_off = TransOffset(leap_year, jan1_weekday, posix.dst_start);
     auto std_trans_off = TransOffset(leap_year, jan1_weekday, posix.dst_end);
     dst.unix_time = jan1_time + dst_trans_off - posix.std_offset;
@@ -370,6 +373,7 @@ bool TimeZoneInfo::ExtendTransitions() {
     jan1_weekday = (jan1_weekday + kDaysPerYear[leap_year]) % 7;
     leap_year = !leap_year && IsLeap(last_year_ + 1);
   }
+  last_year_ -= 1;  // the final year only serves civil times before it
 
   return true;
 }
